@@ -61,7 +61,9 @@ func (r *Reflog) load(rootGoitPath string, head *Head, refs *Refs) error {
 			continue
 		}
 		if sp1[1] == strings.Repeat("0", 40) {
-			record.Hash = nil
+			// the record names no commit (first half of a branch rename):
+			// there is nothing HEAD@{n} could show or reset to, so it is not an entry
+			continue
 		} else {
 			hash, err := sha.ReadHash(sp1[1])
 			if err != nil {
@@ -70,7 +72,7 @@ func (r *Reflog) load(rootGoitPath string, head *Head, refs *Refs) error {
 			record.Hash = hash
 
 			// references
-			if head.Commit.Hash.Compare(hash) {
+			if head.Commit != nil && head.Commit.Hash.Compare(hash) {
 				record.Head = color.GreenString(head.Reference)
 			}
 			branches := refs.getBranchesByHash(hash)
